@@ -230,3 +230,24 @@ impl IntoUntyped for String {
         Ok(Val::Str(StrValue(IStr::from(v))))
     }
 }
+
+// ---- expressions for the short-circuit operators ---------------------------------------------------
+use std::sync::atomic::{AtomicU32, Ordering as AO};
+pub static EVALS_LEFT: AtomicU32 = AtomicU32::new(0);
+pub static EVALS_RIGHT: AtomicU32 = AtomicU32::new(0);
+#[derive(Clone, Debug)]
+pub struct Context;
+/// an expression that evaluates to a fixed value; `right` tells which counter it bumps
+#[derive(Clone, Debug)]
+pub struct Expr {
+    pub v: Val,
+    pub right: bool,
+}
+pub fn evaluate(_ctx: Context, e: &Expr) -> Result<Val> {
+    if e.right {
+        EVALS_RIGHT.fetch_add(1, AO::Relaxed);
+    } else {
+        EVALS_LEFT.fetch_add(1, AO::Relaxed);
+    }
+    Ok(e.v.clone())
+}
